@@ -113,4 +113,27 @@ theorem c15_peak_ge_every_cell (init : α × β) (planes : List ((α × List α)
 /-- Non-vacuity: a history with two equal maxima keeps the first height. -/
 example : run ((0 : Nat), (0 : Nat)) [(5, 1), (9, 2), (9, 3), (4, 4)] = (9, 2) := by decide
 
+/-! ### rows of the peak pin tables
+
+A label `j` appears iff assembly `j - 1` exists and tracks pin peaks: the row labelled with an assembly is that assembly's, and an
+assembly without pin temperatures has none.  The running-number labelling of a seeded change provably does not have this property
+as soon as an assembly without pins comes first. -/
+
+theorem c15_pin_rows_labels (hasPin : List Bool) (j : Nat) :
+    j ∈ pinRowLabels hasPin ↔ ∃ i, i < hasPin.length ∧ hasPin.getD i false = true ∧ j = i + 1 := by
+  unfold pinRowLabels
+  simp only [List.mem_filterMap, List.mem_range]
+  constructor
+  · rintro ⟨i, hi, h⟩
+    by_cases hp : hasPin.getD i false = true
+    · rw [if_pos hp] at h
+      exact ⟨i, hi, hp, by simpa using h.symm⟩
+    · rw [if_neg hp] at h; simp at h
+  · rintro ⟨i, hi, hp, rfl⟩
+    exact ⟨i, hi, by rw [if_pos hp]⟩
+
+/-- counter-model: the first assembly has no pins, the second has - its row must be labelled 2, the running number gives 1 -/
+theorem c15_pin_rows_running_counter :
+    pinRowLabels [false, true] = [2] ∧ pinRowLabelsRunning [false, true] = [1] := by decide
+
 end Dassh.Props.C15
